@@ -62,6 +62,23 @@ fn c17<T: Case>(g: &mut Gen, st: &mut Stats) -> CaseResult {
             ensure!(pos == alt.len(), "reframed-position", "consumed {} of {}", pos, alt.len());
             st.class("reframed/accepted");
         } else { st.class("reframed/refused") }
+        // struct fields are identified by name, not by position: any order of the entries gives the same value
+        if T::TOP_STRUCT {
+            if let Item::Map(entries, f) = &model {
+                if entries.len() >= 2 {
+                    let mut e2 = entries.clone();
+                    for i in (1 .. e2.len()).rev() { let j = g.below(i + 1); e2.swap(i, j) }
+                    let it = if f.is_some() { Item::map(e2) } else { Item::Map(e2, None) };
+                    let enc = it.encode();
+                    let (r, pos) = from_slice_pos::<T>(&enc);
+                    match r {
+                        Ok(back) => { ensure!(back == v, "reordered-fields-value", "with its entries reordered, {} deserialised to {:?}, expected {:?}", it.render(), back, v); ensure!(pos == enc.len(), "reordered-fields-position", "consumed {} of {}", pos, enc.len()) }
+                        Err(e) => fail!("reordered-fields-rejected", "reordering the entries of a struct map made {} fail: {}", it.render(), e)
+                    }
+                    st.class("reordered-struct-entries");
+                }
+            }
+        }
         // unknown extra entries in a struct map are ignored
         if T::TOP_STRUCT {
             if let Item::Map(entries, f) = &model {
@@ -136,7 +153,7 @@ fn borrowed(g: &mut Gen, st: &mut Stats) -> CaseResult {
         Ok(back) => {
             ensure!(back == v, "borrowed-value", "{} deserialised to {:?}", model.render(), back);
             ensure!(pos == enc.len(), "borrowed-position", "consumed {} of {}", pos, enc.len());
-            let inside = |p: *const u8, n: usize| n == 0 || ((p as usize) >= enc.as_ptr() as usize && (p as usize) + n <= enc.as_ptr() as usize + enc.len());
+            let inside = |p: *const u8, n: usize| ((p as usize) >= enc.as_ptr() as usize && (p as usize) + n <= enc.as_ptr() as usize + enc.len());
             ensure!(inside(back.s.as_ptr(), back.s.len()) && inside(back.b.as_ptr(), back.b.len()), "not-borrowed", "borrowed fields do not point into the input");
         }
         Err(e) => fail!("borrowed-rejected", "{} rejected: {}", model.render(), e)
@@ -174,7 +191,7 @@ fn borrowed_buffered(g: &mut Gen, st: &mut Stats) -> CaseResult {
     let sv = g.string(20);
     let bv = g.bytes(20);
     let (s, b) = (sv.as_str(), BB(&bv));
-    fn inside(p: *const u8, n: usize, enc: &[u8]) -> bool { n == 0 || ((p as usize) >= enc.as_ptr() as usize && (p as usize) + n <= enc.as_ptr() as usize + enc.len()) }
+    fn inside(p: *const u8, n: usize, enc: &[u8]) -> bool { ((p as usize) >= enc.as_ptr() as usize && (p as usize) + n <= enc.as_ptr() as usize + enc.len()) }
     macro_rules! rt { ($label:expr, $t:ty, $v:expr, |$x:ident| $ptrs:expr) => {{
         let v: $t = $v;
         let enc = minicbor_serde::to_vec(&v).map_err(|e| vcore::Fail::new("serialize-failed", format!("{}: {}", $label, e)))?;
